@@ -85,7 +85,7 @@ func loadWorld(repo string) (*World, error) {
 	// see through helper functions that do not exist in the reference tree (inline.go)
 	var loadNotes []string
 	overlayAll := map[string][]byte{}
-	for round := 0; round < 5 && os.Getenv("KPVERIFY_NO_INLINE") == ""; round++ {
+	for round := 0; round < 8 && os.Getenv("KPVERIFY_NO_INLINE") == ""; round++ {
 		overlay, notes := flattenHelpers(pkgs)
 		loadNotes = append(loadNotes, notes...)
 		if overlay == nil {
